@@ -33,7 +33,7 @@ func init() {
 		Run: c11Run,
 		Floors: func(m *Merged, tier string) []string {
 			var u []string
-			for _, c := range []string{"layout_negative_key", "layout_zero_key", "layout_maxkey_254", "layout_maxkey_255", "layout_maxkey_256", "layout_big_key", "layout_undefined_mode", "layout_regvarandop", "fetcher_slice", "fetcher_map", "registrations_checked", "weighted_sums", "ident_probes"} {
+			for _, c := range []string{"layout_negative_key", "layout_zero_key", "layout_maxkey_254", "layout_maxkey_255", "layout_maxkey_256", "layout_big_key", "layout_undefined_mode", "layout_regvarandop", "layout_prepopulated_then_regvarandop", "fetcher_slice", "fetcher_map", "registrations_checked", "weighted_sums", "ident_probes"} {
 				if m.C(c) == 0 {
 					u = append(u, c+" = 0")
 				}
@@ -226,7 +226,7 @@ func c11Run(w *W, idx int) {
 		cc.OperatorMap["ident"] = ident
 		var hist []string
 		nontrivial := false
-		kind := (idx + l) % 5
+		kind := (idx + l) % 6
 		regs := 0
 		switch kind {
 		case 0:
@@ -234,11 +234,39 @@ func c11Run(w *W, idx int) {
 			cc.CompileOptions[eval.AllowUndefinedVariable] = true
 			hist = append(hist, "undefined-variable mode")
 			w.Inc("layout_undefined_mode")
-		case 1:
+		case 1, 5:
+			if kind == 5 {
+				// a map pre-populated with sparse explicit keys (some for names of the binding, some for others), then RegVarAndOp
+				names := make([]string, 0, len(vals)+4)
+				for n := range vals {
+					names = append(names, n)
+				}
+				sort.Strings(names)
+				names = append(names, "f0", "f1", "f2", "f3")
+				r.Shuffle(len(names), func(i, j int) { names[i], names[j] = names[j], names[i] })
+				keys := []int{0, 1, 2, 3, 4, 5, 6, 7, 8, 9, 10, 11, 12, 250, 255, 256}
+				r.Shuffle(len(keys), func(i, j int) { keys[i], keys[j] = keys[j], keys[i] })
+				pre := 1 + r.Intn(5)
+				for i := 0; i < pre && i < len(names); i++ {
+					cc.VariableKeyMap[names[i]] = eval.VariableKey(keys[i])
+					hist = append(hist, fmt.Sprintf("%s=%d", names[i], keys[i]))
+				}
+				w.Inc("layout_prepopulated_then_regvarandop")
+				nontrivial = true
+			}
+			before := map[string]eval.VariableKey{}
+			for k, v := range cc.VariableKeyMap {
+				before[k] = v
+			}
 			eval.RegVarAndOp(vals)(cc)
 			hist = append(hist, "RegVarAndOp(vals)")
 			w.Inc("layout_regvarandop")
 			regs = len(vals)
+			for n := range vals {
+				if !c11CheckMap(w, before, cc, n, cc.VariableKeyMap[n], strings.Join(hist, " ")) {
+					return
+				}
+			}
 		default:
 			// pre-populated map with distinct keys, then registrations in shuffled order
 			names := make([]string, 0, len(vals))
